@@ -119,8 +119,12 @@ def run(ctx) -> None:
                         src = args[0] if args else None
                         src_param = params[0]
                         has_src = b.conds().get(src_param)
-                        if has_src is False or (isinstance(src, ast.Constant) and src.value == ""):
-                            ctx.ok(RA, f"{gname} {kind}-loop empty source kept empty", yloc, nontrivial=False)
+                        is_empty = isinstance(src, ast.Constant) and src.value in ("", b"")
+                        if has_src is False:
+                            ctx.check(is_empty, RA, f"{gname} {kind}-loop empty source kept empty", f"no source directory is known but the event's source is `{ast.unparse(src)[:60]}`", yloc, nontrivial=False)
+                            continue
+                        if is_empty:
+                            ctx.viol(RA, f"{gname} {kind}-loop source", "the source directory is known but the synthetic event's source is left empty (the rewrite is applied on the wrong branch)", yloc)
                             continue
                         c = classify_rewrite(src)
                         construct = f"{gname} {kind}-loop source"
@@ -201,6 +205,7 @@ VARIANTS = [
     dict(name="B moved generator walks the source", expect="fire", rule="C14/", edits=[(EV, "    for root, directories, filenames in os.walk(dest_dir_path):  # type: ignore[type-var]", "    for root, directories, filenames in os.walk(src_dir_path):  # type: ignore[type-var]")]),
     dict(name="B src/dest swapped in constructor", expect="fire", rule="C14/", edits=[(EV, "            yield FileMovedEvent(renamed_path, full_path, is_synthetic=True)", "            yield FileMovedEvent(full_path, renamed_path, is_synthetic=True)")]),
     dict(name="B join + slice past one assumed separator", expect="fire", rule="C14/prefix-anchored-rewrite", edits=[(EV, _SL, 'renamed_path = os.path.join(src_dir_path, full_path[len(dest_dir_path) + 1 :]) if src_dir_path else ""')]),
+    dict(name="B rewrite applied on the wrong branch of the empty-source test", expect="fire", rule="C14/prefix-anchored-rewrite", edits=[(EV, _SL, 'renamed_path = src_dir_path + full_path[len(dest_dir_path) :] if not src_dir_path else ""')]),
     dict(name="E replace(a, b, 1)", expect="silent", edits=[(EV, _SL, 'renamed_path = full_path.replace(dest_dir_path, src_dir_path, 1) if src_dir_path else ""')]),
     dict(name="E removeprefix", expect="silent", edits=[(IC, "_move_to_path = inotify_event.src_path + _path[len(move_src_path) :]", "_move_to_path = inotify_event.src_path + _path.removeprefix(move_src_path)")]),
     dict(name="E rename locals", expect="silent", edits=[(EV, "            full_path = os.path.join(root, directory)  # type: ignore[call-overload]\n            yield DirCreatedEvent(full_path, is_synthetic=True)", "            p = os.path.join(root, directory)  # type: ignore[call-overload]\n            yield DirCreatedEvent(p, is_synthetic=True)")]),
